@@ -91,14 +91,18 @@ func checkC13(c *Ctx, r *Report) {
 					continue
 				}
 				ss = append(ss, w.pos(retPos(ex)))
-				v := stripTrivial(ex.Ret.Results[0])
-				exr, ok := v.(*ssa.Extract)
-				if !ok || exr.Index != 0 {
-					viol = fmt.Sprintf("%s: the bytes returned are not ForceOrderedJSON's result", w.pos(retPos(ex)))
-					continue
-				}
-				if call, ok := exr.Tuple.(*ssa.Call); !ok || calleeName(call) != "generator/swagen/swagtool.ForceOrderedJSON" {
-					viol = fmt.Sprintf("%s: the bytes returned are not ForceOrderedJSON's result", w.pos(retPos(ex)))
+				for _, v := range w.originValues(stripTrivial(ex.Ret.Results[0])) {
+					if k, isConst := v.(*ssa.Const); isConst && k.IsNil() && ex.Kind != exitSuccess {
+						continue // the (nil, err) return of a helper the result is delegated to
+					}
+					exr, ok := stripTrivial(v).(*ssa.Extract)
+					if !ok || exr.Index != 0 {
+						viol = fmt.Sprintf("%s: the bytes returned are not ForceOrderedJSON's result", w.pos(retPos(ex)))
+						continue
+					}
+					if call, ok := exr.Tuple.(*ssa.Call); !ok || calleeName(call) != "generator/swagen/swagtool.ForceOrderedJSON" {
+						viol = fmt.Sprintf("%s: the bytes returned are not ForceOrderedJSON's result", w.pos(retPos(ex)))
+					}
 				}
 			}
 			r.add("C13.a", "fieldflow", g+":returns(ForceOrderedJSON)", e.Ver+": the emitted bytes are the key-ordered ones", []string{g}, ss, viol)
@@ -143,11 +147,12 @@ func checkC13(c *Ctx, r *Report) {
 			if tv := info.Types[cl.Args[0]]; tv.Value == nil || constString(tv.Value) != "UnpackImportsMap" {
 				return true
 			}
-			fl, ok := cl.Args[1].(*ast.FuncLit)
-			if !ok {
+			fl := w.helperBody(fi, cl.Args[1])
+			if fl == nil {
 				return true
 			}
 			sortedVars := map[string]bool{}
+			nSortedRanges := 0
 			ast.Inspect(fl, func(m ast.Node) bool {
 				if sc, ok := m.(*ast.CallExpr); ok {
 					cn := calleeOfCall(info, sc)
@@ -166,13 +171,18 @@ func checkC13(c *Ctx, r *Report) {
 					if _, isMap := t.Underlying().(*types.Map); isMap {
 						return true
 					}
+					if rc, isCall := ast.Unparen(rs.X).(*ast.CallExpr); isCall && strings.HasPrefix(calleeOfCall(info, rc), "slices.Sorted") {
+						nSortedRanges++ // ranges over a sorted copy
+						ss = append(ss, w.pos(rc.Pos()))
+						return true
+					}
 					if !sortedVars[exprString(rs.X)] {
 						viol = fmt.Sprintf("%s: UnpackImportsMap emits imports while ranging over %s, which is not sorted inside the helper", w.pos(rs.Pos()), exprString(rs.X))
 					}
 				}
 				return true
 			})
-			if len(sortedVars) < 2 {
+			if len(sortedVars)+nSortedRanges < 2 {
 				viol = "UnpackImportsMap must sort both the package paths and each alias list"
 			}
 			return false
